@@ -133,6 +133,10 @@ pub fn glob_match(pattern: &str, path: &str) -> bool {
     if let Some(ext) = pattern.strip_prefix("*.") {
         return has_ext(path, ext);
     }
+    if let Some(ext) = pattern.strip_prefix("*/*.") {
+        // `*` crosses separators, but the literal `/` must be there
+        return path.contains('/') && has_ext(path, ext);
+    }
     if let Some(pos) = pattern.find("/*.") {
         // `dir/*.ext`: `*` is not stopped by `/`
         let (dir, ext) = (&pattern[..pos], &pattern[pos + 3..]);
